@@ -67,20 +67,20 @@ Proof. intros Hi. apply sumf_ext. intros j Hj. rewrite upd_other by lia. reflexi
 Lemma mu_set_c s c x :
   c < nc s -> mu (set_c s c x) + 3 * cmeasure (nw s) (ct s c) = mu s + 3 * cmeasure (nw s) x.
 Proof.
-  intros Hc. unfold mu. cbn [nw nc ct wk panic set_c].
+  intros Hc. unfold mu. cbn [nw nc ct wk panic link set_c].
   pose proof (sumf_upd (cmeasure (nw s)) (ct s) c x (nc s) Hc) as Hs. lia.
 Qed.
 
 Lemma mu_set_w s w x :
   w < nw s -> mu (set_w s w x) + wmeasure (wk s w) = mu s + wmeasure x.
 Proof.
-  intros Hw. unfold mu. cbn [nw nc ct wk panic set_w].
+  intros Hw. unfold mu. cbn [nw nc ct wk panic link set_w].
   pose proof (sumf_upd wmeasure (wk s) w x (nw s) Hw) as Hs. lia.
 Qed.
 
 Lemma mu_set_w_ge s w x : nw s <= w -> mu (set_w s w x) = mu s.
 Proof.
-  intros Hw. unfold mu. cbn [nw nc ct wk panic set_w].
+  intros Hw. unfold mu. cbn [nw nc ct wk panic link set_w].
   rewrite (sumf_upd_ge wmeasure (wk s) w x (nw s) Hw). reflexivity.
 Qed.
 
@@ -124,10 +124,21 @@ Ltac dstep H :=
 Lemma ltb_lt' a b : (a <? b) = true -> a < b.
 Proof. apply Nat.ltb_lt. Qed.
 
-(* every system step strictly decreases the measure: for every variant of the code *)
-Lemma step_mu v s l s' : sys l = true -> step v s l = Some s' -> mu s' < mu s.
+Definition nolinks (s : state) : Prop := forall w, link s w = None.
+
+Lemma step_link v s l s' : step v s l = Some s' -> link s' = link s.
 Proof.
-  intros Hsys Hstep. unfold step in Hstep.
+  intros Hstep. unfold step in Hstep. destruct (panic s); [discriminate|].
+  destruct l; dstep Hstep; inversion Hstep; subst; clear Hstep;
+    unfold take, release, ptake, prelease;
+    repeat match goal with |- context [if ?b then _ else _] => destruct b end; reflexivity.
+Qed.
+
+(* every system step strictly decreases the measure: for every variant of the code (workers that
+   do not feed each other) *)
+Lemma step_mu v s l s' : nolinks s -> sys l = true -> step v s l = Some s' -> mu s' < mu s.
+Proof.
+  intros Hnl Hsys Hstep. unfold step in Hstep.
   destruct (panic s) eqn:Hpanic; [discriminate|].
   destruct l; cbn in Hsys; try discriminate Hsys.
   - (* LPauseBegin *)
@@ -169,7 +180,7 @@ Proof.
       rewrite Heqc0 in Hm. cbn [cmeasure length] in Hm. rewrite seq_length in Hm. lia.
   - (* LResumeVisit *)
     dstep Hstep; inversion Hstep; subst; clear Hstep;
-      apply memb_In in Heqb0; pose proof (rem_length_lt _ _ Heqb0) as Hlen.
+      apply andb_prop in Heqb0; destruct Heqb0 as [Heqb0 _]; apply memb_In in Heqb0; pose proof (rem_length_lt _ _ Heqb0) as Hlen.
     + pose proof (mu_set_c s c (CRRange (rem w todo) (w :: aw)) (ltb_lt' _ _ Heqb)) as Hm.
       rewrite Heqc0 in Hm. cbn [cmeasure length] in Hm. lia.
     + pose proof (mu_set_c s c (CRRange (rem w todo) aw) (ltb_lt' _ _ Heqb)) as Hm.
@@ -208,7 +219,7 @@ Proof.
   - (* LUnsubCloseR *)
     dstep Hstep; inversion Hstep; subst; clear Hstep; rewrite ?mu_set_holder; wstep.
   - (* LDone *)
-    dstep Hstep; inversion Hstep; subst; clear Hstep. wstep.
+    rewrite (Hnl w) in Hstep. dstep Hstep; inversion Hstep; subst; clear Hstep. wstep.
   - (* LBusyStop *)
     dstep Hstep; inversion Hstep; subst; clear Hstep. wstep.
 Qed.
@@ -224,14 +235,18 @@ Proof.
   destruct (step v s l); [apply IH | reflexivity].
 Qed.
 
+Lemma nolinks_step v s l s' : nolinks s -> step v s l = Some s' -> nolinks s'.
+Proof. intros Hnl Hstep w. rewrite (step_link v s l s' Hstep). apply Hnl. Qed.
+
 Lemma run_mu v ls : forall s s',
-  all_sys ls -> run v s ls = Some s' -> length ls + mu s' <= mu s.
+  nolinks s -> all_sys ls -> run v s ls = Some s' -> length ls + mu s' <= mu s.
 Proof.
-  induction ls as [|l ls IH]; intros s s' Hall Hrun; cbn [run length] in *.
+  induction ls as [|l ls IH]; intros s s' Hnl Hall Hrun; cbn [run length] in *.
   - inversion Hrun; subst. lia.
   - inversion Hall as [|? ? Hl Hls]; subst.
     destruct (step v s l) as [s1|] eqn:Hstep; [|discriminate].
-    pose proof (step_mu v s l s1 Hl Hstep). specialize (IH s1 s' Hls Hrun). lia.
+    pose proof (step_mu v s l s1 Hnl Hl Hstep).
+    specialize (IH s1 s' (nolinks_step v s l s1 Hnl Hstep) Hls Hrun). lia.
 Qed.
 
 (* ---- the candidate list is complete ---- *)
@@ -264,10 +279,10 @@ Proof.
   - (* LResumeVisit *)
     apply (in_cands_c s c); [apply Nat.ltb_lt; assumption |].
     unfold cands_c. apply in_or_app. right. rewrite Heqc0.
-    apply in_or_app. left. apply in_map. now apply memb_In.
+    apply in_or_app. left. apply in_map. apply andb_prop in Heqb0. now apply memb_In.
   - apply (in_cands_c s c); [apply Nat.ltb_lt; assumption |].
     unfold cands_c. apply in_or_app. right. rewrite Heqc0.
-    apply in_or_app. left. apply in_map. now apply memb_In.
+    apply in_or_app. left. apply in_map. apply andb_prop in Heqb0. now apply memb_In.
   - (* LHandshake *)
     apply (in_cands_c s c); [apply Nat.ltb_lt; assumption |].
     unfold cands_c. apply in_or_app. right. rewrite Heqc0.
@@ -316,23 +331,24 @@ Proof.
 Qed.
 
 (* the scheduler [quiesce] reaches a quiescent state by system steps once it has enough fuel *)
-Lemma quiesce_spec v fuel : forall s, mu s < fuel ->
+Lemma quiesce_spec v fuel : forall s, nolinks s -> mu s < fuel ->
   exists ls, all_sys ls /\ run v s ls = Some (quiesce v fuel s) /\ quiescent v (quiesce v fuel s).
 Proof.
-  induction fuel as [|k IH]; intros s Hmu; [lia|]. cbn [quiesce].
+  induction fuel as [|k IH]; intros s Hnl Hmu; [lia|]. cbn [quiesce].
   destruct (pick v s) as [l|] eqn:Hpick.
   - destruct (pick_some v s l Hpick) as [Hsys [s1 Hstep]]. rewrite Hstep.
-    pose proof (step_mu v s l s1 Hsys Hstep) as Hlt.
-    destruct (IH s1 ltac:(lia)) as [ls [Hall [Hrun Hq]]].
+    pose proof (step_mu v s l s1 Hnl Hsys Hstep) as Hlt.
+    destruct (IH s1 (nolinks_step v s l s1 Hnl Hstep) ltac:(lia)) as [ls [Hall [Hrun Hq]]].
     exists (l :: ls). split; [constructor; assumption|]. split; [|assumption].
     cbn [run]. rewrite Hstep. assumption.
   - exists []. split; [constructor|]. split; [reflexivity|]. now apply pick_none.
 Qed.
 
 (* every state has a maximal system execution, and every system execution is short *)
-Lemma maximal_exists v s :
+Lemma maximal_exists v s : nolinks s ->
   exists ls s', all_sys ls /\ run v s ls = Some s' /\ quiescent v s'.
 Proof.
-  destruct (quiesce_spec v (S (mu s)) s ltac:(lia)) as [ls [Hall [Hrun Hq]]].
+  intros Hnl.
+  destruct (quiesce_spec v (S (mu s)) s Hnl ltac:(lia)) as [ls [Hall [Hrun Hq]]].
   exists ls, (quiesce v (S (mu s)) s). auto.
 Qed.
